@@ -5,7 +5,8 @@ CONSTANTS
   BaseSeq <- BasesTiny
   WrapSeq <- WrapsTiny
   RenSeq <- RensMC
-  DocSet = {FALSE}
+  DocSet = {""}
+  IntFull = FALSE
   Family = "all"
   MaxFields = 2
   MaxDepth = 3
